@@ -17,6 +17,48 @@ from pycfmodel.resolver import _extended_bool, resolve
 AllResourcesType = Annotated[Union[ResourceModels, GenericResource], Field(union_mode="left_to_right")]
 
 
+class _ConditionResolver(dict):
+    """
+    Resolves conditions on demand, so the result does not depend on the order of declaration.
+    A reference to an undeclared condition, or to one that is still being resolved (a cycle), counts as False.
+    """
+
+    def __init__(self, declared: Dict, params: Dict, mappings: Dict):
+        super().__init__()
+        self._declared = declared
+        self._params = params
+        self._mappings = mappings
+        self._in_progress = []
+        self._tainted = False
+
+    def get(self, key, default=None):
+        if key in self:
+            return self[key]
+        if key not in self._declared:
+            return default
+        if key in self._in_progress:
+            self._tainted = True
+            return False
+        outer_tainted, self._tainted = self._tainted, False
+        self._in_progress.append(key)
+        try:
+            value = _extended_bool(resolve(self._declared[key], self._params, self._mappings, self))
+        finally:
+            self._in_progress.pop()
+        if not self._tainted:
+            # Only values that did not depend on a condition still being resolved can be reused.
+            self[key] = value
+        self._tainted = self._tainted or outer_tainted
+        return value
+
+    def resolve_all(self) -> Dict[str, bool]:
+        resolved = {}
+        for key in self._declared:
+            self._tainted = False
+            resolved[key] = self.get(key)
+        return resolved
+
+
 class CFModel(CustomModel):
     """
     Template that describes AWS infrastructure.
@@ -83,11 +125,7 @@ class CFModel(CustomModel):
         dict_value = self.model_dump()
 
         conditions = dict_value.pop("Conditions", {})
-        resolved_conditions = {}
-        for key, value in conditions.items():
-            resolved_conditions.update(
-                {key: _extended_bool(resolve(value, extended_parameters, self.Mappings, resolved_conditions))}
-            )
+        resolved_conditions = _ConditionResolver(conditions, extended_parameters, self.Mappings).resolve_all()
 
         resources = dict_value.pop("Resources")
         resolved_resources = {
